@@ -13,7 +13,13 @@ import json
 import os
 
 import lib
-from lib import cZ, chex, clist
+from lib import chex, clist
+
+
+def cZ(n):
+    """hexadecimal literals: Coq parses them much faster than long decimal ones"""
+    return f'(-0x{-n:x})%Z' if n < 0 else f'(0x{n:x})%Z'
+
 
 PROP = 'C16'
 IMPORTS = 'From PV Require Import Michelson.Arith.'
